@@ -433,3 +433,22 @@ Print Assumptions C19_peg_render_parse.
 Print Assumptions C19_float_structure.
 Print Assumptions C19_float_structure_all.
 Print Assumptions C19_float_literals.
+
+(** ---- Round 9 (pegfuel): the generic termination theorem of Proofs/PegFuel.v on the regenerated
+    calculator grammar: the static well-formedness check holds (computed on every run), hence no rule,
+    from any position under any atomicity, runs out of fuel above the generic linear bound
+    peg_bound k_grammar n = g_A * n + g_K * g_W + g_W. (Numerically weaker than C19_peg_fuel_suffices,
+    which is specific to rule 11 from position 0; generic in the grammar.) *)
+From Cicada Require Proofs.PegFuel Proofs.PegFuelCalc.
+Theorem C19_grammar_wf : PegFuel.wf_grammar CalcGrammar.k_grammar = true.
+Proof. exact PegFuelCalc.k_grammar_wf. Qed.
+Check C19_grammar_wf : PegFuel.wf_grammar CalcGrammar.k_grammar = true.
+Theorem C19_peg_fuel_adequate : forall start a pos (s : str) (fuel : nat),
+  (PegFuel.peg_bound CalcGrammar.k_grammar (List.length s) <= fuel)%nat ->
+  Peg.ev CalcGrammar.k_grammar fuel (Peg.PRef start) a pos s <> Peg.PFuel.
+Proof. exact PegFuelCalc.k_peg_fuel_adequate. Qed.
+Check C19_peg_fuel_adequate : forall start a pos (s : str) (fuel : nat),
+  (PegFuel.peg_bound CalcGrammar.k_grammar (List.length s) <= fuel)%nat ->
+  Peg.ev CalcGrammar.k_grammar fuel (Peg.PRef start) a pos s <> Peg.PFuel.
+Print Assumptions C19_grammar_wf.
+Print Assumptions C19_peg_fuel_adequate.
